@@ -20,7 +20,8 @@
        claimed slices of a, new sides the claimed slices of b, everything between hunks is common);
      * the apply automaton, one action per patch line like apply_patch's loop
        (Header, Hunk, Line, NoEol, EndHunk, Finish), forward or in reverse.
-   Mode "given" runs Valid and the automaton on patches produced by the implementation. *)
+   Mode "given" runs Valid and the automaton on patches produced by the implementation.
+   (Making the diff is an action of its own, Make, so that TLC's workers share that work.) *)
 EXTENDS Integers, Sequences, FiniteSets, TLC
 CONSTANTS Alphabet,     \* line contents, 1..k
           MaxLines,     \* texts have at most this many lines
@@ -128,7 +129,7 @@ Valid(p, a, b) ==
                          /\ SubSeq(a, OE(h), O1(nx) - 1) = SubSeq(b, NE(h), N1(nx) - 1)
 
 (* ---------------- the apply automaton ---------------- *)
-VARIABLES a, b, n, rev, patch, gi,      \* the input, fixed after Init
+VARIABLES a, b, n, rev, patch, gi,      \* the input, fixed after Init / Make
           pc, i, sl, target, err
 input == <<a, b, n, rev, patch, gi>>
 vars == <<a, b, n, rev, patch, gi, pc, i, sl, target, err>>
@@ -139,12 +140,19 @@ Mine == IF rev THEN "del" ELSE "ins"       \* lines that exist only in the resul
 
 Init == /\ \/ /\ Mode # "given" /\ gi = 0
               /\ a \in (IF CanonA THEN {t \in Texts : IsCanon(t)} ELSE Texts)
-              /\ b \in Texts
-              /\ \E s \in ScriptSet(a, b) : \E c \in Contexts : n = c /\ patch = Render(s, a, b, c)
+              /\ b \in Texts /\ n \in Contexts
+              /\ patch = <<>> /\ rev = FALSE /\ pc = "make"
            \/ /\ Mode = "given"
               /\ \E g \in Given : gi = g[1] /\ a = g[2] /\ b = g[3] /\ n = g[4] /\ patch = g[5]
-        /\ rev \in BOOLEAN
-        /\ pc = "header" /\ i = 1 /\ sl = 0 /\ target = <<>> /\ err = ""
+              /\ rev \in BOOLEAN /\ pc = "header"
+        /\ i = 1 /\ sl = 0 /\ target = <<>> /\ err = ""
+
+\* make_patch: some edit script of the chosen family, grouped with n lines of context; then the direction is chosen
+Make == /\ pc = "make"
+        /\ \E s \in ScriptSet(a, b) : patch' = Render(s, a, b, n)
+        /\ rev' \in BOOLEAN
+        /\ pc' = "header"
+        /\ UNCHANGED <<a, b, n, gi, i, sl, target, err>>
 
 Fail(e) == pc' = "error" /\ err' = e /\ UNCHANGED <<i, sl, target>>
 IsBody(k) == k <= Len(patch) /\ patch[k][1] \in BodyTags
@@ -179,7 +187,7 @@ EndHunk == /\ pc = "body" /\ ~IsBody(i)
 Finish == /\ pc = "hunk" /\ i > Len(patch)
           /\ target' = target \o SubSeq(Src, sl + 1, Len(Src)) /\ sl' = Len(Src) /\ pc' = "done"
           /\ UNCHANGED <<input, i, err>>
-Next == Header \/ Hunk \/ Line \/ NoEol \/ EndHunk \/ Finish
+Next == Make \/ Header \/ Hunk \/ Line \/ NoEol \/ EndHunk \/ Finish
 Spec == Init /\ [][Next]_vars
 
 (* ---------------- C30 ---------------- *)
